@@ -1,8 +1,12 @@
 """Reusable rule building blocks shared by the property modules."""
+import importlib
+import json
+import os
 import re
 
 import hir as H
 import mir as M
+from report import Reporter, VERIF
 
 
 def short(p):
@@ -206,3 +210,38 @@ def short_write_sites(body):
         if not used:
             out.append((bi, t))
     return out
+
+
+# ---- cross-property dependencies --------------------------------------------------------------------------------------------
+_SUB = {}
+
+
+def subordinate(F, pid, tier):
+    """Run another property's rules silently; return {rule id: [unlisted failure keys]} and the set of rule ids that ran."""
+    if pid in _SUB:
+        return _SUB[pid]
+    mod = importlib.import_module(pid.lower())
+    sub = Reporter(pid, tier)
+    mod.run(F, sub, tier)
+    known = set()
+    kf = os.path.join(VERIF, "known_findings.json")
+    if os.path.exists(kf):
+        for f in json.load(open(kf)).get("findings", []):
+            if f["property"] == pid:
+                known.add(f["key"])
+    res = {r.rid: [k for k, _, _ in r.fails if k not in known] for r in sub.rules}
+    _SUB[pid] = res
+    return res
+
+
+
+
+def depends_on(rule, F, tier, deps, what):
+    """`what` (a clause of this property) is established by rule instances of other properties: run them, require that they hold."""
+    for rid in deps:
+        res = subordinate(F, rid.split("-")[0], tier)
+        rule.site("%s ⇐ %s" % (what, rid))
+        if rid not in res:
+            rule.fail(("depends", rid, "missing"), "%s relies on %s, which did not run" % (what, rid))
+        elif res[rid]:
+            rule.fail(("depends", rid), "%s relies on %s, which reported %s" % (what, rid, res[rid][0]))
